@@ -29,7 +29,8 @@ META = {
         ' Round 7: options that PLSSParser defaults by layout (clean_up) reach it as None when not given; the stage-only flag of a replacement ChunkParser is read off __init__ whatever it is called; result caches keyed by everything the skipped parse reads.'
         ' Round 8: segment() is followed for layout == copy_all with a Twp/Rge match (must keep the text in one block).'
         ' Round 9: the attribute fall-back of PLSSDesc.parse runs whenever the argument is not given (no further state condition).'
-        ' Round 10: `if chunk_layout is None:` is an accepted form of the deduction lock; a loop-filled settings table is undecided, not a violation.'),
+        ' Round 10: `if chunk_layout is None:` is an accepted form of the deduction lock; a loop-filled settings table is undecided, not a violation.'
+        " Round 11: an empty unpacked section list / an undefined placeholder can never reach _parse_copyall (shared rules of C05 / C09); the 'layout was dictated' attribute is found by what is stored in it."),
     'families': ['LOCK', 'ONCE', 'TBL', 'DEFUSE', 'FORWARD', 'DEADPARAM', 'SIB-DEFAULTS'],
 }
 
@@ -49,6 +50,12 @@ def check(ctx):
     ctx.attempt(common.error_check_covers_all, ctx.repo.func('PLSSParser.check_error_tracts'))
     ctx.attempt(common.config_words, plss=('layout', 'segment'))
     ctx.attempt(common.parallel_shapes, [f for f in ctx.repo.funcs.values() if f.module.name.endswith(('trs.trs',))])
+    # copy_all stages `sec[0]`: the unpacked section list is never empty; and what it stages when nothing
+    # is left is the ERROR placeholder (the fallback's error flag is raised from it), never the undefined one
+    from .c05 import every_match_registers
+    ctx.attempt(every_match_registers, rule='DEFUSE')
+    from .c09 import _placeholders
+    ctx.attempt(_placeholders)
 
 
 def _layout_lock(ctx, cl):
@@ -173,7 +180,7 @@ def _layout_lock(ctx, cl):
                            and isinstance(t, ast.BoolOp) and isinstance(t.op, ast.And) for t, pol in guards(ded[0]))
     gts = [t for t, pol in guards(ded[0])] if ded else []
     m_copy = any(mentions(pc, t, 'COPY_ALL') for t in gts)
-    m_mand = any(mentions(pc, t, 'mandate_layout') for t in gts)
+    m_mand = any(mentions(pc, t, mandate_attr(ctx)) for t in gts)
     ok = ok or (m_copy and m_mand)
     # `if chunk_layout is None: chunk_layout = deduce_layout(chunk)`: deduction only fills in a layout
     # that was not handed down (PLSSParser.parse hands down copy_all / a mandated layout, checked above)
@@ -209,43 +216,76 @@ def _layout_lock(ctx, cl):
 
 def follow_segment(ctx, seg, layout_name, matches):
     """Follow PLSSChunker.segment() for a given layout constant and a given
-    (symbolic) list of Twp/Rge matches: 'kept' when the walk reaches
-    `self.blocks.append(text)`, otherwise what it did instead; None when the
-    body has a shape the walk does not cover."""
+    (symbolic) list of Twp/Rge matches: 'kept' when every path of the walk
+    reaches `self.<chunks>.append(text)`, otherwise what some path did
+    instead; None when the body has a shape the walk does not cover.  A test
+    that does not fold and does not look at the match list (a raw
+    `twprge_regex.search(text)`) is independent of the assumption made about
+    the finder's result: both outcomes are followed."""
     from .. import ccp
-    verdict = None
-    try:
-        names = layout_classes(ctx)['names']
-        env = dict(names)
-        env.update({'layout': names.get(layout_name, layout_name.lower()), 'matches': matches, 'text': 'text'})
-        stmts = list(seg.node.body)
-        steps = 0
-        while stmts and verdict is None and steps < 50:
+    names = layout_classes(ctx)['names']
+    env0 = dict(names)
+    env0.update({'layout': names.get(layout_name, layout_name.lower()), 'matches': matches, 'text': 'text'})
+    budget = [200]
+
+    def go(stmts, env):
+        stmts = list(stmts)
+        while stmts:
+            budget[0] -= 1
+            if budget[0] < 0:
+                raise ccp.Unsupported('budget')
             st = stmts.pop(0)
-            steps += 1
             if isinstance(st, ast.Expr) and isinstance(st.value, ast.Constant):
                 continue
             if isinstance(st, ast.If):
-                stmts = list(st.body if ccp.truth(ccp.ev(st.test, env)) else st.orelse) + stmts
+                try:
+                    taken = ccp.truth(ccp.ev(st.test, env))
+                except ccp.Unsupported:
+                    if any(isinstance(x, ast.Name) and x.id == 'matches' for x in ast.walk(st.test)):
+                        raise
+                    a = go(list(st.body) + stmts, dict(env))
+                    b = go(list(st.orelse) + stmts, dict(env))
+                    if a == b:
+                        return a
+                    bad = a if a != 'kept' else b
+                    return f"{bad} (when `{norm(st.test)[:50]}` is {'true' if a != 'kept' else 'false'})"
+                stmts = list(st.body if taken else st.orelse) + stmts
             elif isinstance(st, ast.Return):
-                verdict = 'returned without keeping the text'
+                return 'returned without keeping the text'
             elif isinstance(st, ast.Expr) and isinstance(st.value, ast.Call):
                 nm_ = norm(st.value.func)
                 if nm_.startswith('self._segment'):
-                    verdict = f"calls {nm_}()"
-                elif nm_ == 'self.blocks.append' and [norm(a) for a in st.value.args] == ['text']:
-                    verdict = 'kept'
+                    return f"calls {nm_}()"
+                if nm_.startswith('self.') and nm_.endswith('.append') and 'unused' not in nm_ \
+                        and [norm(a) for a in st.value.args] == ['text']:
+                    return 'kept'            # self.blocks.append(text) (whatever the list of chunks is called)
             elif isinstance(st, ast.Assign) and isinstance(st.targets[0], ast.Name):
-                if st.targets[0].id in ('matches', 'text', 'layout') and not (st.targets[0].id == 'layout'):
+                if st.targets[0].id in ('matches', 'text'):
                     continue            # the finder's result / the text: kept symbolic
                 env[st.targets[0].id] = ccp.ev(st.value, env)
             else:
                 raise ccp.Unsupported(type(st).__name__)
-        if verdict is None and not stmts:
-            verdict = 'fell off the end without keeping the text'
+        return 'fell off the end without keeping the text'
+    try:
+        return go(seg.node.body, env0)
     except ccp.Unsupported:
-        verdict = None
-    return verdict
+        return None
+
+
+def mandate_attr(ctx):
+    """name of the PLSSParser attribute that records 'a layout was dictated'
+    (`self.mandate_layout = not segment and layout is not None`): found by what
+    is stored, so a rename of the attribute does not lose it"""
+    try:
+        pi = ctx.repo.func('PLSSParser.__init__')
+    except AnalysisError:
+        return 'mandate_layout'
+    for n in walk_local(pi.node):
+        if isinstance(n, ast.Assign) and len(n.targets) == 1 and isinstance(n.targets[0], ast.Attribute) \
+                and norm(n.targets[0].value) == 'self' and n.targets[0].attr != 'layout' \
+                and ('layout is not None' in norm(n.value) or 'layout is None' in norm(n.value)):
+            return n.targets[0].attr
+    return 'mandate_layout'
 
 
 def chunk_layout_conditions(pp):
